@@ -557,17 +557,23 @@ func gatherVsRestart(kind string) zzmc.Scenario {
 				out := fmt.Sprintf("locals=%d published=%d nils=%d state=%s", len(locals), len(gw.candLog), nils, st)
 				switch st {
 				case GatheringStateNew:
-					// Restart came last: the cycle (if any) was cancelled; nothing of it may live in the new generation
+					// Restart came last: nothing of the cycle may live in the new generation. The cycle was either cancelled
+					// (no end marker) or had run to completion before the Restart task (then its one marker is legitimate:
+					// both are loop tasks, the run is judged by its outcome).
 					if len(locals) != 0 {
 						fail += fmt.Sprintf("CANDIDATE-OF-CANCELLED-CYCLE-IN-NEW-GENERATION(%d) ", len(locals))
 					}
-					if nils != 0 {
-						fail += "CANCELLED-CYCLE-EMITTED-END-OF-GATHERING-MARKER "
+					if nils > 1 {
+						fail += fmt.Sprintf("%d-END-OF-GATHERING-MARKERS ", nils)
 					}
 				case GatheringStateComplete:
-					// the cycle started after Restart: a legitimate, complete cycle
+					// the completion came last: one marker, and nothing removed what the cycle published (a cancelled cycle
+					// that still "completes" after the Restart task would leave the state Complete with its candidates gone)
 					if nils != 1 {
 						fail += fmt.Sprintf("COMPLETE-CYCLE-WITH-%d-END-MARKERS ", nils)
+					}
+					if len(locals) != len(gw.candLog)-nils {
+						fail += fmt.Sprintf("STATE-COMPLETE-BUT-%d-OF-%d-PUBLISHED-CANDIDATES-ARE-LOCAL ", len(locals), len(gw.candLog)-nils)
 					}
 				default:
 					fail += "GATHERING-NEVER-FINISHED(" + st.String() + ") "
